@@ -356,3 +356,76 @@ func within(f, fn *ssa.Function) bool {
 	}
 	return false
 }
+
+// ---- helper transparency ---------------------------------------------------------------------------
+
+// rootOf: fn itself, or - when fn (or the function it is a closure of) was folded into a region -
+// that region's root. Rules that name a function as "the" site of something use this so that a
+// single-call-site helper extracted from it still counts as part of it.
+func (w *World) rootOf(fn *ssa.Function) *ssa.Function {
+	fn = enclosingNamed(fn)
+	for i := 0; i < 4; i++ {
+		moved := false
+		for root, members := range w.Region {
+			for _, m := range members {
+				if m == fn {
+					fn = root
+					moved = true
+				}
+			}
+		}
+		if !moved {
+			break
+		}
+	}
+	return fn
+}
+
+// withinUp: fn is root, a closure of it, a helper folded into it, or an unexported function all of
+// whose library callers are (transitively, up to three levels) within root.
+func (w *World) withinUp(fn, root *ssa.Function) bool {
+	return w.withinUpDepth(fn, root, 0)
+}
+
+func (w *World) withinUpDepth(fn, root *ssa.Function, depth int) bool {
+	if within(fn, root) || w.rootOf(fn) == root {
+		return true
+	}
+	fn = enclosingNamed(fn)
+	if depth >= 3 {
+		return false
+	}
+	if obj, ok := fn.Object().(*types.Func); !ok || obj.Exported() {
+		return false
+	}
+	n := 0
+	for _, e := range w.CG.CallersOf(fn) {
+		if !w.P.IsLib(e.Caller) {
+			continue
+		}
+		n++
+		if e.Callback || !w.withinUpDepth(e.Caller, root, depth+1) {
+			return false
+		}
+	}
+	return n > 0
+}
+
+// regionFuncs: root, its folded helpers and all their closures.
+func (w *World) regionFuncs(root *ssa.Function) []*ssa.Function {
+	var out []*ssa.Function
+	for _, f := range w.RegionOf(root) {
+		out = append(out, f)
+		out = append(out, allAnon(f)...)
+	}
+	return out
+}
+
+// CallsInRegion: call instructions to obj in root's region (closures included).
+func (w *World) CallsInRegion(root *ssa.Function, obj interface{}) []ssa.Instruction {
+	var out []ssa.Instruction
+	for _, f := range w.RegionOf(root) {
+		out = append(out, w.CallsIn(f, obj, true)...)
+	}
+	return out
+}
